@@ -50,12 +50,13 @@ BOUNDS = {
               'singles': 'every slot x 72 descriptors (4 kinds x labels "",A,1a x symbols none . - = # $)',
               'doubles': 'every slot pair (same slot in both orders) x 12 x 12 descriptors',
               'random_cases': 15000, 'random_skeleton_atoms_max': 8, 'random_insertions_max': 2},
-    'thorough': {'skeletons': 'G3 thorough set: same shapes x cyclic fillings over 19 atomistic / 6 coarse spellings',
+    'thorough': {'skeletons': 'G3 thorough set: same shapes x 12 (19 for <= 2 atoms) cyclic fillings over 19 atomistic spellings, '
+                              '6 fillings over 6 coarse spellings',
                  'insertions_max': 3,
                  'singles': 'every slot x 72 descriptors',
                  'doubles': 'every slot pair x 12 x 12 descriptors',
                  'triples': 'every slot triple x 6 x 6 x 6 descriptors on the quick skeleton set',
-                 'random_cases': 400000, 'random_skeleton_atoms_max': 8, 'random_insertions_max': 3},
+                 'random_cases': 250000, 'random_skeleton_atoms_max': 8, 'random_insertions_max': 3},
 }
 EXHAUSTIVE = {'quick': False, 'thorough': False}
 RULE = ('skeleton token sequences of G3 (exhaustive over the listed shapes x fillings) x every sequence of <= k '
